@@ -220,8 +220,20 @@ def main(argv=None):
         else:
             print('NOTE: known finding %s not reproduced by its witness (observed: %s)' % (k['key'], keys))
 
-    # 2. the workload
-    results, errors, timed_out = run_workers(prop, tier, args.seed, count, args.jobs, timeout)
+    # 2. the workload (for modules that opt in: plus the images the repository's own tests master)
+    suite_info = None
+    spool = None
+    if tier in getattr(mod, 'SUITE_TIERS', ()) and not args.cases:
+        from harness import suite
+        spool, suite_info = suite.prepare(args.jobs)
+        os.environ['VERIF_SUITE_SPOOL'] = spool
+        count += suite.NSLOTS
+    try:
+        results, errors, timed_out = run_workers(prop, tier, args.seed, count, args.jobs, timeout)
+    finally:
+        if spool:
+            from harness import suite
+            suite.cleanup(spool)
 
     violations = {}
     shapes = set()
@@ -280,6 +292,9 @@ def main(argv=None):
         if counters.get(name, 0) < minimum:
             reach_ok = False
             reach_msgs.append('%s=%s < %s' % (name, counters.get(name, 0), minimum))
+    if suite_info is not None and counters.get('suite_images_checked', 0) < 50:
+        reach_ok = False
+        reach_msgs.append('suite_images_checked=%s < 50 (%s)' % (counters.get('suite_images_checked', 0), suite_info.get('suite_run')))
     verdict_inconclusive = False
     if exit_code == 0:
         if errors or harness_errors or timed_out or evaluations < min_eval or not reach_ok:
@@ -315,6 +330,8 @@ def main(argv=None):
         'wall_s': round(time.monotonic() - t0, 2),
         'violations': len(new_keys),
     }
+    if suite_info is not None:
+        evidence['coverage']['repository_suite_workload'] = suite_info
     if hasattr(mod, 'extra_evidence'):
         evidence['coverage'].update(mod.extra_evidence(results))
     os.makedirs(os.path.join(VERIF, 'evidence'), exist_ok=True)
